@@ -22,8 +22,8 @@ THEOREMS = {
 RULE = ('breadth-first over ALL states reachable from the empty container over keys {a,A,b,B,ab} x values {0,1} '
         '(state = items() of the implementation), every operation applied once from every state, for each class; '
         'plus seeded random histories with richer keys; non-trivial = history containing a mutation; distinct by case JSON')
-TRUSTED = ['str.lower is ASCII in the model (keys are drawn from ASCII)']
-ASSUMPTIONS = ['keys are ASCII strings; values are integers']
+TRUSTED = ['str.lower is modelled character by character from a table regenerated from the running interpreter (Gen/UnicodeCase.lean): every code point except U+0130 (two-character lower case) and U+03A3 (context rule)']
+ASSUMPTIONS = ['keys are strings without U+0130 and U+03A3; values are integers']
 
 KEYS = ['a', 'A', 'b', 'B', 'ab']
 VALS = [0, 1]
@@ -335,7 +335,27 @@ def _bfs(cls, ops, max_states=None):
 RICH = ['key', 'Key', 'KEY', 'kEy', 'x', 'X', 'Straße'.replace('ß', 'ss'), 'a1', 'A1', 'a-b', 'A-B', '', ' ', 'Z']
 
 
+# keys with non-ASCII cased letters: pairs / triples that Python's str.lower() identifies (the model's table is regenerated from the
+# interpreter: Gen/UnicodeCase.lean).  Not generated: U+0130 (lower() is two characters) and U+03A3 (final-sigma context rule).
+UNI = ['\u00c9', '\u00e9', '\u00c9a', '\u00e9A', '\u00df', '\u1e9e', '\u212a', 'k', 'K', '\u0414', '\u0434', '\u01c5', '\u01c4', '\u01c6',
+       '\u03c9', '\u03a9', '\u2126', '\u00c5', '\u212b', '\u00e5', '\U00010400', '\U00010428', '\u017f', 's', 'S', '\u0131', 'I', 'i', '\u6bdb', 'ss', 'SS']
+
+
 def _random_case(rng, cls, n):
+    global RICH
+    if rng.random() < 0.4:
+        saved = RICH
+        RICH = UNI
+        try:
+            c = _random_case_(rng, cls, n)
+        finally:
+            RICH = saved
+        c['probe'] = PROBE + UNI[:6]
+        return c
+    return _random_case_(rng, cls, n)
+
+
+def _random_case_(rng, cls, n):
     if cls == 'set':
         ops = []
         for _ in range(n):
